@@ -68,6 +68,7 @@ type v2run struct {
 	ins      map[uint]chan int
 	closedIn map[uint]bool
 	nextItem map[uint]int
+	recvCount map[uint]int
 	held     []uint
 	evCh     chan priority.VerifEvent
 	gate     chan struct{}
@@ -108,7 +109,7 @@ func (r *v2run) hook(ev priority.VerifEvent) {
 }
 
 func newV2(t *testing.T, cfg Config, gated bool) *v2run {
-	r := &v2run{cfg: cfg, ins: map[uint]chan int{}, closedIn: map[uint]bool{}, nextItem: map[uint]int{},
+	r := &v2run{cfg: cfg, ins: map[uint]chan int{}, closedIn: map[uint]bool{}, nextItem: map[uint]int{}, recvCount: map[uint]int{},
 		evCh: make(chan priority.VerifEvent), gate: make(chan struct{}), stop: make(chan struct{}), parked: map[uint]*atomic.Bool{}}
 	r.free.Store(!gated)
 	inputs := map[uint]<-chan int{}
@@ -223,6 +224,7 @@ func (r *v2run) recv() (bool, bool) {
 			return false, true
 		}
 		r.held = append(r.held, x.Priority)
+		r.recvCount[uint(x.Item/1000)]++
 		r.emit(obs{E: "R", P: x.Priority, C: uint(x.Item / 1000), K: x.Item % 1000})
 		return true, false
 	default:
@@ -328,6 +330,66 @@ func (r *v2run) stallGated() {
 	}
 }
 
+// alone: continuation for C06. Bring the discipline to "nothing in flight" (release and drain everything that
+// is already inside), then give data to ONE priority only and never release: it must be granted all H handlers.
+func (r *v2run) alone(pick int) {
+	for quiet := 0; quiet < 6; {
+		for len(r.held) > 0 {
+			r.release(r.held[0])
+		}
+		synctest.Wait()
+		got, _ := r.recv()
+		if got {
+			quiet = 0
+			continue
+		}
+		quiet++
+		time.Sleep(3 * time.Nanosecond)
+	}
+	var open []uint
+	for _, p := range r.cfg.Prios {
+		if !r.closedIn[p] {
+			open = append(open, p)
+		}
+	}
+	if len(open) == 0 {
+		return
+	}
+	p := open[pick%len(open)]
+	r.emit(obs{E: "A", P: p})
+	for idle := 0; idle < 8 && len(r.held) <= 3*int(r.cfg.H)+8; {
+		progressed := false
+		if r.cfg.incap(p) == 0 {
+			if !r.parked[p].Load() {
+				r.produce(p)
+				progressed = true
+			}
+		} else {
+			for len(r.ins[p]) < cap(r.ins[p]) {
+				if r.produce(p) != nil {
+					break
+				}
+				progressed = true
+			}
+		}
+		synctest.Wait()
+		for {
+			got, _ := r.recv()
+			if !got {
+				break
+			}
+			progressed = true
+		}
+		if progressed {
+			idle = 0
+		} else {
+			idle++
+			time.Sleep(3 * time.Nanosecond)
+		}
+	}
+	r.emit(obs{E: "QA", P: p, Held: r.heldCounts()})
+}
+
 // finish: close everything, release everything, drain; the discipline must close Output() and Err().
 func (r *v2run) finish() {
 	close(r.stop)
@@ -360,6 +422,12 @@ func (r *v2run) finish() {
 		}
 	}
 	if !outClosed {
+		for _, p := range r.cfg.Prios {
+			if r.recvCount[p] < r.nextItem[p] {
+				r.emit(obs{E: "Starved", C: p, Note: "written items not delivered within the virtual deadline although everything received was released"})
+				return
+			}
+		}
 		r.emit(obs{E: "Deadline", Note: "output not closed within the virtual deadline after everything was closed and released"})
 		return
 	}
@@ -498,6 +566,9 @@ func replayPath(t *testing.T, cfg Config, path []step, cont string) (res pathRes
 		close(r.gate)
 		if cont == "stall" && !cfg.Saturated {
 			r.stall()
+		}
+		if cont == "alone" {
+			r.alone(len(path))
 		}
 		r.finish()
 		log = r.log
